@@ -1314,6 +1314,8 @@ def str_to_man_exp(x, base=10):
     x = x.lower().rstrip('l')
     # Verify that the input is a valid float literal
     float(x)
+    # Digit-grouping underscores (accepted by float) carry no value
+    x = x.replace('_', '')
     # Split into mantissa, exponent
     parts = x.split('e')
     if len(parts) == 1:
